@@ -3,7 +3,7 @@
      parse_render : wp t = true -> read_back t = Some (erase t)
    (the text of a well-parenthesised tree, read with C's precedence and associativity rules, is that
    tree).  Axiom-free. *)
-From SE Require Import C15.CParse.
+From SE Require Export C15.CParse.
 From Coq Require Import Lia.
 Local Open Scope N_scope.
 
